@@ -90,6 +90,7 @@ def main():
     ranges = try_ranges(runpy_file)
     base = os.path.splitext(os.path.basename(script))[0]
 
+    os.environ["VPK_C10_BASE"] = os.path.splitext(script)[0]
     events.open_log(logpath)
     log = events.emit
     fired, posts = [False], [0]
